@@ -425,13 +425,47 @@ fn gen_op(builder: &str, rng: &mut Rng) -> Step {
             _ => o("other", vec![a_bytes(rng)]),
         },
         "CoseKdfContext" => match rng.below(5) {
-            0 => o("party_u_info", vec![Arg::I(rng.below(party_palette().len()) as i128)]),
-            1 => o("party_v_info", vec![Arg::I(rng.below(party_palette().len()) as i128)]),
-            2 => o("supp_pub_info", vec![Arg::I(rng.below(supp_pub_palette().len()) as i128)]),
+            0 => o("party_u_info", vec![a_party(rng)]),
+            1 => o("party_v_info", vec![a_party(rng)]),
+            2 => o("supp_pub_info", vec![a_supp(rng)]),
             3 => o("algorithm", vec![a_reg(rng, ALGS, all_algs())]),
             _ => o("add_supp_priv_info", vec![a_small(rng)]),
         },
         _ => unreachable!(),
+    }
+}
+
+/// Party / supplementary info arguments: palette index, or a seeded value carried as CBOR.
+fn a_party(rng: &mut Rng) -> Arg {
+    if rng.bool() {
+        let p = crate::traffic::gen_party(rng, &crate::traffic::GenCfg::small());
+        let b = refcbor::encode(&p.to_item());
+        if refcbor::read_exact(&b).ok().and_then(|i| MPartyInfo::from_item(&i)).as_ref() == Some(&p) {
+            return Arg::B(b);
+        }
+    }
+    Arg::I(rng.below(party_palette().len()) as i128)
+}
+fn a_supp(rng: &mut Rng) -> Arg {
+    if rng.bool() {
+        let p = crate::traffic::gen_supp(rng, &crate::traffic::GenCfg::small());
+        let b = refcbor::encode(&p.to_item());
+        if refcbor::read_exact(&b).ok().and_then(|i| MSuppPubInfo::from_item(&i)).as_ref() == Some(&p) {
+            return Arg::B(b);
+        }
+    }
+    Arg::I(rng.below(supp_pub_palette().len()) as i128)
+}
+fn party_from(s: &Step, parties: &[MPartyInfo]) -> HResult<MPartyInfo> {
+    match s.args.first() {
+        Some(Arg::B(b)) => refcbor::read_exact(b).ok().and_then(|i| MPartyInfo::from_item(&i)).ok_or_else(|| HarnessError("party argument".into())),
+        _ => parties.get(s.usize(0)?).cloned().ok_or_else(|| HarnessError("party index".into())),
+    }
+}
+fn supp_from(s: &Step, supps: &[MSuppPubInfo]) -> HResult<MSuppPubInfo> {
+    match s.args.first() {
+        Some(Arg::B(b)) => refcbor::read_exact(b).ok().and_then(|i| MSuppPubInfo::from_item(&i)).ok_or_else(|| HarnessError("supp argument".into())),
+        _ => supps.get(s.usize(0)?).cloned().ok_or_else(|| HarnessError("supp index".into())),
     }
 }
 
@@ -1407,7 +1441,16 @@ fn item_equiv(a: &refcbor::Item, b: &refcbor::Item) -> bool {
     use refcbor::Kind::*;
     match (&a.kind, &b.kind) {
         (UInt(x), UInt(y)) | (NInt(x), NInt(y)) => x == y,
-        (Bytes(x), Bytes(y)) | (Text(x), Text(y)) => x == y,
+        (Text(x), Text(y)) => x == y,
+        (Bytes(x), Bytes(y)) => {
+            // byte strings that are themselves CBOR on both sides (protected headers) are compared
+            // structurally, so that a float inside them may be emitted in any width
+            x == y
+                || match (refcbor::read_exact(x), refcbor::read_exact(y)) {
+                    (Ok(a), Ok(b)) if !x.is_empty() && !y.is_empty() => item_equiv(&a, &b),
+                    _ => false,
+                }
+        }
         (Array(x), Array(y)) => x.len() == y.len() && x.iter().zip(y).all(|(p, q)| item_equiv(p, q)),
         (Map(x), Map(y)) => {
             x.len() == y.len() && x.iter().zip(y).all(|((k1, v1), (k2, v2))| item_equiv(k1, k2) && item_equiv(v1, v2))
@@ -1453,19 +1496,19 @@ fn exec_kdf(t: &Trace) -> HResult<Option<Violation>> {
     drive!(b, t.steps, |s| {
         match s.name.as_str() {
             "party_u_info" => {
-                let p = parties.get(s.usize(0)?).cloned().ok_or_else(|| HarnessError("party index".into()))?;
+                let p = party_from(s, &parties)?;
                 let c = p.to_coset();
                 m.party_u_info = p;
                 (Pred::Accept, ok(move |b: B| b.party_u_info(c)), None)
             }
             "party_v_info" => {
-                let p = parties.get(s.usize(0)?).cloned().ok_or_else(|| HarnessError("party index".into()))?;
+                let p = party_from(s, &parties)?;
                 let c = p.to_coset();
                 m.party_v_info = p;
                 (Pred::Accept, ok(move |b: B| b.party_v_info(c)), None)
             }
             "supp_pub_info" => {
-                let p = supps.get(s.usize(0)?).cloned().ok_or_else(|| HarnessError("supp index".into()))?;
+                let p = supp_from(s, &supps)?;
                 let c = p.to_coset();
                 m.supp_pub_info = p;
                 (Pred::Accept, ok(move |b: B| b.supp_pub_info(c)), None)
@@ -1523,7 +1566,14 @@ fn exec_kdf(t: &Trace) -> HResult<Option<Violation>> {
     let model_bytes = refcbor::encode(&want);
     match guarded(|| coset::CoseKdfContext::from_slice(&model_bytes).and_then(|c| c.to_vec())) {
         Ok(Ok(re)) => {
-            if re != bytes {
+            // compared structurally: the decoded copy re-emits the model's protected bytes as they
+            // were, the built value emits its own (a float inside may differ in width)
+            let same = re == bytes
+                || match (refcbor::read_exact(&re), refcbor::read_exact(&bytes)) {
+                    (Ok(a), Ok(b)) => item_equiv(&a, &b),
+                    _ => false,
+                };
+            if !same {
                 return Ok(Some(Violation::new(
                     "C19.field(kdf-second-observation)",
                     format!("decode+encode of the model bytes gives {} but the built value encodes as {}", crate::util::hex_short(&re), crate::util::hex_short(&bytes)),
